@@ -14,7 +14,7 @@ ASSUMPTIONS = [
     "filters are functions of the node and of the distance only (a filter that looks at the predecessor is outside the model)",
 ]
 
-ORACLE = {"struct", "levels", "pred", "fsize", "order", "revisit", "fresh", "perm", "len", "fused", "parent", "dist",
+ORACLE = {"struct", "levels", "pred", "fsize", "order", "revisit", "fresh", "perm", "len", "parent", "dist",
           "refusal", "status"}
 CORR = {"seqev", "parsched", "orderev", "rootsev", "permev"}
 
@@ -25,6 +25,10 @@ def nontrivial(case):
     return case["_line"].split(" id=")[-1].split(" ", 1)[-1]
 
 
+# The harness also records ("fused" aspect) that BfsOrder, which declares FusedIterator, panics
+# when next() is called again after it returned None.  That is a bug of the library but not
+# part of property C13 (which speaks about the enumeration itself), so the aspect is
+# informational only: it is neither an oracle nor a correspondence aspect.
 def fused_finding(case, failing):
     """BfsOrder implements FusedIterator, but next() after the iterator returned None panics
     (the queue is empty and pop_front().expect(..) fails)."""
@@ -65,6 +69,6 @@ def run(ctx):
                  "(duplicates, all nodes, empty), VecGraph or compressed BvGraph, filters on node and distance, node/arc granularities, pools of 1..16 "
                  "threads, yields/sleeps injected in callbacks and filters; one PRNG seeded by VERIF_SEED; non-trivial = "
                  "at least 2 nodes and one arc; distinct = different case line" % (3 if quick else 4))
-    violations, known = codec.verdict("C13", r, known_matchers=[fused_finding])
+    violations, known = codec.verdict("C13", r)
     r.update({"violations": violations, "known": known})
     return r
